@@ -92,6 +92,22 @@ func genC20(g *Gen, tier string, idx int) *wire.Scenario {
 	}
 	sc.Script = g.c20Script(mode)
 	isearch := false
+	compThenType := false
+	if mode == "emacs" && g.P(12) {
+		// a completion that is over (its only candidate inserted, or none found, or the candidates
+		// only listed), the user typing on, and the event arriving later in the same call
+		sc.Env.Comp = &wire.CompSpec{PrefixOnly: true, Cands: []wire.Cand{{Value: "alpha"}, {Value: "beta"}, {Value: "gamma"}, {Value: "gulf"}, {Value: "delta"}}}
+		sc.Script = nil
+		for _, r := range Pick(g, []string{"alp", "b", "zz", "g", "de"}) {
+			sc.Script = append(sc.Script, tok(string(r), "self-insert"))
+		}
+		sc.Script = append(sc.Script, Pick(g, []wire.Token{tok("\t", "complete"), tok("\t", "complete"), tok("\x1b?", "possible-completions")}))
+		for _, r := range Pick(g, []string{" ga", " be", "x", " d", "m", " al"}) {
+			sc.Script = append(sc.Script, tok(string(r), "self-insert"))
+		}
+		sc.Script = append(sc.Script, tok("\r", "accept-line"))
+		compThenType = true
+	}
 	if mode == "emacs" && g.P(12) {
 		// an incremental history search in progress (its match shown in the line, not yet accepted)
 		sc.Env.History = []wire.HistSrc{{Kind: "memory", Name: "h0", Entries: []string{"one", "two words", "three", "bar two"}}}
@@ -108,8 +124,8 @@ func genC20(g *Gen, tier string, idx int) *wire.Scenario {
 		nd = g.Range(4, 6)
 	}
 	plan := wire.Plan{Policy: "seeded", Class: "S0", Seed: g.Seed(), Sites: g.siteSubset(Pick(g, []int{10, 35, 70}))}
-	supported := idx%4 == 0 || isearch // only the supported window: while main waits for input
-	if isearch {
+	supported := idx%4 == 0 || isearch || compThenType // only the supported window: while main waits for input
+	if isearch || compThenType {
 		nd = 1
 	}
 	for i := 0; i < nd; i++ {
@@ -208,14 +224,14 @@ func execC20(x *Ctx, sc *wire.Scenario) *wire.Result {
 	// the window and the kinds of disturbance, not how many ran nor which task blocked where.
 	// a resize regenerates the completions: with a menu open that is a known way to lose the selection
 	// (and the grid that orders the candidates depends on the width)
+	// The library keeps the completer of a completion request until the next key that reaches the main
+	// keymap: the window is a disturbance arriving with a menu open or directly after a completion key.
 	withComp := false
-	for i := range ref.Waits {
-		if ref.Waits[i].Local == "menu-select" {
+	for _, k := range out.DisturbTok {
+		if k > 0 && k <= len(sc.Script) && strings.Contains(sc.Script[k-1].Cmd, "complet") {
 			withComp = true
 		}
-	}
-	for _, t := range sc.Script {
-		if strings.Contains(t.Cmd, "complet") {
+		if w := waitAfter(ref, k); w != nil && w.Local == "menu-select" {
 			withComp = true
 		}
 	}
